@@ -734,8 +734,8 @@ def _p_frt(draw, flavour=0):
 
 def _p_skbase(name):
     def f(draw, flavour=0):
-        # the key set of a kwargs holder is part of its configuration space: A and B share it
-        keys = [["alpha", "beta"], ["alpha", "mode", "k"]][flavour % 2]
+        # kwargs holders: any key set (a set_params between different key sets is checked as "reports at least the given keys")
+        keys = draw(st.lists(st.sampled_from(["alpha", "beta", "mode", "k"]), min_size=1, max_size=3, unique=True))
         return dict(cls=name, params={k: draw(st.sampled_from([1, 2, 0.5, "x", "y", None])) for k in keys})
     return f
 
